@@ -28,8 +28,14 @@ type Program struct {
 	df map[*ssa.Function]*funcFacts // cached dataflow per function
 
 	callers   map[*ssa.Function][]Call
+	alias     map[*ssa.Function]string // renamed function -> recorded identity
+	Renames   []string
 	addrTaken map[*ssa.Function]bool
 }
+
+// currentProgram is the program being analysed (one per process); used to present renamed functions
+// under their recorded identity.
+var currentProgram *Program
 
 // repoModules are the three go.work modules of package-operator.
 var loadPatterns = []string{
@@ -155,6 +161,8 @@ func Load(repoDir, tier string, overlay map[string][]byte) (*Program, error) {
 	for _, f := range p.Funcs {
 		p.funcByID[funcID(f)] = f
 	}
+	p.resolveRenames()
+	currentProgram = p
 	return p, nil
 }
 
@@ -185,6 +193,20 @@ func funcID(fn *ssa.Function) string {
 // shortFuncID drops the module prefix to keep obligation keys readable.
 func shortFuncID(fn *ssa.Function) string {
 	s := fn.String()
+	if currentProgram != nil {
+		if id, ok := currentProgram.alias[fn]; ok {
+			s = id
+		} else if par := fn.Parent(); par != nil {
+			// closures of a renamed function keep the recorded prefix
+			root := par
+			for root.Parent() != nil {
+				root = root.Parent()
+			}
+			if id, ok := currentProgram.alias[root]; ok {
+				s = id + strings.TrimPrefix(s, root.String())
+			}
+		}
+	}
 	s = strings.ReplaceAll(s, "package-operator.run/", "")
 	return s
 }
